@@ -359,9 +359,22 @@ fn op_create(req: &Value) -> Value {
     let mode = req["mode"].as_str().unwrap_or("scs");
 
     let mut out = serde_json::Map::new();
-    let built = genotype::reader::Builder::default()
-        .set_threads(threads)
-        .build_from_bufread(reader);
+    // "compression": "bgzf" | "none" and "format": "vcf" | "bcf" set the builder options explicitly; absent = auto-detect
+    let mut builder = genotype::reader::Builder::default().set_threads(threads);
+    match req["compression"].as_str() {
+        Some("bgzf") => {
+            builder = builder
+                .set_compression_method(Some(genotype::reader::builder::CompressionMethod::Bgzf))
+        }
+        Some("none") => builder = builder.set_compression_method(None),
+        _ => (),
+    }
+    match req["format"].as_str() {
+        Some("vcf") => builder = builder.set_format(genotype::reader::builder::Format::Vcf),
+        Some("bcf") => builder = builder.set_format(genotype::reader::builder::Format::Bcf),
+        _ => (),
+    }
+    let built = builder.build_from_bufread(reader);
 
     match built {
         Err(e) => {
@@ -627,6 +640,83 @@ fn g<T: Into<Value>>(r: Result<T, String>) -> Value {
     }
 }
 
+/// Call histories that end in a CONSUMING adaptor: a fresh iterator is advanced by `k` calls of `next()` and then handed to one of
+/// `count`, `last`, `fold`, `for_each`, `collect`, `nth(1)`, `step_by(2)`, `skip(1).count()`, `size_hint` (std's provided
+/// methods, which an iterator may override). One JSON object per (k, adaptor); a panic is recorded, not propagated.
+fn terminal_histories<I, T, M, F>(mk: M, ks: &[usize], to_val: F) -> Value
+where
+    I: Iterator<Item = T>,
+    M: Fn() -> I,
+    F: Fn(T) -> Value + Copy,
+{
+    let mut out = Vec::new();
+    for &k in ks {
+        let advanced = || {
+            let mut it = mk();
+            for _ in 0..k {
+                let _ = it.next();
+            }
+            it
+        };
+        let mut o = serde_json::Map::new();
+        o.insert("k".into(), json!(k));
+        o.insert("count".into(), g(guarded(|| json!(advanced().count()))));
+        o.insert(
+            "last".into(),
+            g(guarded(|| advanced().last().map(to_val).unwrap_or(Value::Null))),
+        );
+        o.insert(
+            "fold".into(),
+            g(guarded(|| {
+                Value::Array(advanced().fold(Vec::new(), |mut acc, x| {
+                    acc.push(to_val(x));
+                    acc
+                }))
+            })),
+        );
+        o.insert(
+            "for_each".into(),
+            g(guarded(|| {
+                let mut acc = Vec::new();
+                advanced().for_each(|x| acc.push(to_val(x)));
+                Value::Array(acc)
+            })),
+        );
+        o.insert(
+            "collect".into(),
+            g(guarded(|| {
+                Value::Array(advanced().collect::<Vec<_>>().into_iter().map(to_val).collect())
+            })),
+        );
+        o.insert(
+            "nth1".into(),
+            g(guarded(|| advanced().nth(1).map(to_val).unwrap_or(Value::Null))),
+        );
+        o.insert(
+            "step2".into(),
+            g(guarded(|| Value::Array(advanced().step_by(2).map(to_val).collect()))),
+        );
+        o.insert("skip1_count".into(), g(guarded(|| json!(advanced().skip(1).count()))));
+        o.insert(
+            "size_hint".into(),
+            g(guarded(|| {
+                let (lo, hi) = advanced().size_hint();
+                json!([lo, hi])
+            })),
+        );
+        out.push(Value::Object(o));
+    }
+    Value::Array(out)
+}
+
+fn history_points(total: usize) -> Vec<usize> {
+    let mut ks = vec![0, 1, 2, 3, total / 2, total.saturating_sub(1), total, total + 1];
+    ks.retain(|k| *k <= total + 1);
+    ks.sort_unstable();
+    ks.dedup();
+    ks
+}
+
 fn op_array(req: &Value) -> Value {
     let shape = usizes(&req["shape"]);
     let n: usize = shape.iter().product();
@@ -744,7 +834,12 @@ fn op_array(req: &Value) -> Value {
                         json!({"shape": arr.shape().0.clone(),
                                "data": arr.as_slice().iter().map(|x| *x as i64).collect::<Vec<_>>()})
                     });
-                    json!({"dims": g(dims), "trace": g(trace), "to_array": g(to_array)})
+                    let terminals = if req["terminals"].as_bool().unwrap_or(false) {
+                        terminal_histories(|| view.iter(), &history_points(total), |x: &f64| json!(*x as i64))
+                    } else {
+                        Value::Null
+                    };
+                    json!({"dims": g(dims), "trace": g(trace), "to_array": g(to_array), "terminals": terminals})
                 }
             });
             views.push(json!({"axis": if a == usize::MAX { json!("max") } else { json!(a) },
@@ -779,6 +874,22 @@ fn op_array(req: &Value) -> Value {
         axis_iters.push(json!({"axis": a, "trace": g(r)}));
     }
     out.insert("iter_axis".into(), Value::Array(axis_iters));
+
+    if req["terminals"].as_bool().unwrap_or(false) {
+        out.insert(
+            "index_terminals".into(),
+            terminal_histories(|| array.iter_indices(), &history_points(n), |x| json!(x)),
+        );
+        let mut axis_terminals = Vec::new();
+        for a in 0..d {
+            axis_terminals.push(terminal_histories(
+                || array.iter_axis(Axis(a)),
+                &history_points(shape[a]),
+                |view| json!(view.iter().map(|x| *x as i64).collect::<Vec<_>>()),
+            ));
+        }
+        out.insert("axis_terminals".into(), Value::Array(axis_terminals));
+    }
 
     let mut sums = Vec::new();
     for a in 0..d {
